@@ -81,6 +81,55 @@ def _pair_parts(call):
     return _tuple0(call[2][1]), ps
 
 
+NOM_TERMINATED_C = re.compile(r"^nom::sequence::terminated::\{closure#0\}$")
+
+
+def _parser_desc(f):
+    """(width Aff|None, kind, extra) of a parser-valued term: a number parser named as a function (or a local alias),
+    or `take(n)` / `tag(b)` / `take_until(b)` applied to their argument."""
+    d = _parser_of(f)
+    if d is not None:
+        return d[0], d[1], None
+    f = T.peel(f, payloads=False)
+    if T.is_call(f, r"^nom::bytes::complete::take$"):
+        return T.affine(f[2][0]), "take", f[2][0]
+    if T.is_call(f, r"^nom::bytes::complete::tag$"):
+        b = T.const_bytes(T.peel(f[2][0]))
+        return (Aff(len(b)) if b is not None else None), "tag", b
+    if T.is_call(f, r"^nom::bytes::complete::take_until$"):
+        return None, "take_until", T.const_bytes(T.peel(f[2][0]))
+    return None
+
+
+def _terminated_parts(call):
+    """for `terminated(P1, P2)(i)`: (input, desc(P1), desc(P2)) or None"""
+    if not NOM_TERMINATED_C.match(call[1]):
+        return None
+    mk = T.peel(call[2][0], payloads=False)
+    if not (T.is_call(mk, r"^nom::sequence::terminated$") and len(mk[2]) == 2):
+        return None
+    d1, d2 = _parser_desc(mk[2][0]), _parser_desc(mk[2][1])
+    if d1 is None or d2 is None:
+        return None
+    return _tuple0(call[2][1]), d1, d2
+
+
+def delimited_by(t):
+    """the delimiter bytes when slice term t is the value of `take_until(D)` (directly or as the first part of
+    `terminated(take_until(D), ..)`), else None"""
+    t = T.peel(t, payloads=False)
+    call, idx = _unwrap_result_tuple(t)
+    if call is None or idx != 1:
+        return None
+    tp = _terminated_parts(call)
+    if tp is not None and tp[1][1] == "take_until":
+        return tp[1][2]
+    st = nom_step(call)
+    if st is not None and st[2] == "take_until":
+        return st[3]
+    return None
+
+
 def nom_step(call):
     """For a call term of a nom parser applied to an input: (input_term, width Aff|None, kind, extra)."""
     name = LOCAL_PARSERS.get(call[1], call[1])
@@ -119,6 +168,16 @@ def locate(t, depth=0):
             if idx == 0:
                 return b, off, k
             return b, off.add(k), (ln.add(k, -1) if ln is not None else None)
+        tp = _terminated_parts(call)
+        if tp is not None:
+            inp, d1, d2 = tp
+            b, off, ln = locate(inp, depth + 1)
+            if idx == 1:      # the value of the first parser
+                return b, off, d1[0]
+            if d1[0] is None or d2[0] is None:
+                return b, off.add(Aff(0, {("scan", d1[1], repr(d1[2]), repr(off)): 1})).add(d2[0] if d2[0] is not None else Aff(0)), None
+            w = d1[0].add(d2[0])
+            return b, off.add(w), (ln.add(w, -1) if ln is not None else None)
         pp = _pair_parts(call)
         if pp is not None and idx == 0:
             b, off, ln = locate(pp[0], depth + 1)
@@ -134,6 +193,15 @@ def locate(t, depth=0):
                 return b, off.add(w), (ln.add(w, -1) if ln is not None else None)
             else:  # value part (for take/tag/take_until it is a slice)
                 return b, off, w
+    # item of `x.chunks_exact(n)` / `x.chunks(n)`: the k-th chunk is x[n*k .. n*k + n] (k = the iteration, one atom per loop)
+    if t[0] == "somepayload" and T.is_call(T.peel(t[1], payloads=False), r"(ChunksExact|Chunks)<'a, T> as std::iter::Iterator>::next$"):
+        nx = T.peel(t[1], payloads=False)
+        ch = T.find(nx, lambda x: T.is_call(x, r"slice::<impl \[T\]>::(chunks_exact|chunks)$"))
+        if ch is not None and T.const_int(ch[2][1]) is not None:
+            n = T.const_int(ch[2][1])
+            b, off, ln = locate(ch[2][0], depth + 1)
+            site = ch[3] if len(ch) > 3 else None
+            return b, off.add(Aff(0, {("iter", repr(site)): n})), Aff(n)
     # `x.strip_prefix(P)` = Some(&x[len(P)..]) exactly when x starts with P
     if t[0] == "somepayload" and T.is_call(T.peel(t[1], payloads=False), r"slice::<impl \[T\]>::strip_prefix$"):
         c = T.peel(t[1], payloads=False)
